@@ -4,6 +4,7 @@
 package c11
 
 import (
+	"bytes"
 	"context"
 	"encoding/binary"
 	"fmt"
@@ -24,7 +25,7 @@ func init() {
 	fw.Register(&fw.Prop{
 		ID:     "C11",
 		Builds: []string{"default", "386"}, // the 386 build runs a quarter of the random classes on a 32-bit target
-		Rule: "mine: (data of length 0..300, target, workers 1..16) with targets 3^k/len for k=0..8 exactly and +-1, +-2 ulp, 3^k/len*(1+-1e-9), targets at or below 1/len (1/len, 0.9/len, 1/(3 len), 1e-9, smallest subnormal, 0, -0, -1) and random targets up to 3^9/len; every nonce returned without error must satisfy Score(data||LE64(nonce)) >= target under the package's Score and under the model score; the process must survive (a worker-goroutine panic kills the child process and the case in flight is the witness). shared: several Mine calls with different targets run concurrently on ONE *Worker; every returned nonce must meet its own target. score: Score(msg) for messages of length 8..400 equals 3^z/len with z from the model (BLAKE2b-256, own b1t6, own Curl-P-81). check: the bit-plane lane test (hook) on crafted 64-lane states with exactly n-1, n, n+1 trailing zero trits at lane 0, 63 and random lanes for n in 0..243 returns the first qualifying lane or 64. " +
+		Rule: "mine: (data of length 0..300, target, workers 1..16) with targets 3^k/len for k=0..8 exactly and +-1, +-2 ulp, 3^k/len*(1+-1e-9), targets at or below 1/len (1/len, 0.9/len, 1/(3 len), 1e-9, smallest subnormal, 0, -0, -1) and random targets up to 3^9/len; every nonce returned without error must satisfy Score(data||LE64(nonce)) >= target under the package's Score and under the model score; the process must survive (a worker-goroutine panic kills the child process and the case in flight is the witness). shared: several Mine calls with different targets run concurrently on ONE *Worker; every returned nonce must meet its own target. reuse: six consecutive calls on one long-lived Worker with the message kept in one buffer that is edited in place between the calls. score: Score(msg) for messages of length 8..400 equals 3^z/len with z from the model (BLAKE2b-256, own b1t6, own Curl-P-81). check: the bit-plane lane test (hook) on crafted 64-lane states with exactly n-1, n, n+1 trailing zero trits at lane 0, 63 and random lanes for n in 0..243 returns the first qualifying lane or 64. " +
 			"Non-trivial: mine cases with a target within 2 ulp of a 3^k/len boundary or with len*target < 1; all check cases; score cases.",
 		Assumptions: []string{"BLAKE2b-256 (x/crypto)", "float64 arithmetic of the Go runtime (3^z exact for z <= 33)", "the Curl-P-81 / b1t6 model in harness/oracle/curlp (self-tested)"},
 		SelfTest:    curlp.SelfTest,
@@ -38,12 +39,14 @@ func init() {
 				return map[string]interface{}{"data": fw.Hex(p[0]), "target": fmt.Sprintf("%g (bits %016x)", t, fw.GetU64(p[1])), "target_times_len": t * float64(len(p[0])+8), "workers": p[2][0]}
 			case "score":
 				return map[string]interface{}{"msg": fw.Hex(p[0])}
+			case "reuse":
+				return map[string]interface{}{"seed": fw.GetU64(p[0]), "scenario": "six consecutive Mine calls on one Worker, message kept in one buffer edited in place between the calls"}
 			case "shared":
 				return map[string]interface{}{"seed": fw.GetU64(p[0]), "scenario": "two demanding and one looping easy Mine call run concurrently on one *Worker"}
 			}
 			return map[string]interface{}{"seed": fw.GetU64(p[0]), "n": fw.GetU32(p[1])}
 		},
-		Required:      []string{"mine returned", "mine boundary target", "mine target below 1/len", "score ok", "shared-worker executions", "check ok", "nonce zeros == required", "nonce zeros > required"},
+		Required:      []string{"mine returned", "mine boundary target", "mine target below 1/len", "score ok", "reuse executions", "shared-worker executions", "check ok", "nonce zeros == required", "nonce zeros > required"},
 		WatchdogQuick: 900,
 	})
 }
@@ -70,6 +73,8 @@ func judge(class string, key []byte, o *fw.Obs) {
 	switch class {
 	case "shared":
 		judgeShared(fw.GetU64(p[0]), o)
+	case "reuse":
+		judgeReuse(fw.GetU64(p[0]), o)
 	case "score":
 		msg := p[0]
 		o.Nontrivial()
@@ -233,6 +238,55 @@ func judge(class string, key []byte, o *fw.Obs) {
 	}
 }
 
+// judgeReuse: one long-lived *Worker is called again and again, and the caller keeps its message in ONE
+// buffer that it edits in place between the calls (same length, same backing array, sometimes unchanged
+// content). Every returned nonce must meet the target for the bytes the buffer held at the time of the call.
+func judgeReuse(seed uint64, o *fw.Obs) {
+	o.Nontrivial()
+	r := fw.SubRng(int64(seed), "c11-reuse")
+	w := pow.New(1 + r.Intn(4))
+	buf := make([]byte, 1+r.Intn(80))
+	r.Read(buf)
+	ctx, cancel := context.WithTimeout(context.Background(), 300*time.Second)
+	defer cancel()
+	for step := 0; step < 6; step++ {
+		switch r.Intn(4) {
+		case 0: // unchanged content
+		case 1:
+			buf[r.Intn(len(buf))] ^= byte(1 + r.Intn(255))
+		default:
+			r.Read(buf)
+		}
+		snapshot := append([]byte(nil), buf...)
+		target, _ := modelScore(3+r.Intn(4), len(buf)+8)
+		var nonce uint64
+		var err error
+		if !o.Try("Mine", func() { nonce, err = w.Mine(ctx, buf, target) }) {
+			return
+		}
+		if err != nil {
+			if ctx.Err() != nil {
+				o.Inconclusive("Mine on a reused Worker did not return within 300 s")
+				return
+			}
+			o.Fail("error", "Mine on a reused Worker returned %v", err)
+			return
+		}
+		if !bytes.Equal(buf, snapshot) {
+			o.Fail("mutation", "Mine modified the caller's data")
+			return
+		}
+		msg := append(append([]byte(nil), snapshot...), make([]byte, 8)...)
+		binary.LittleEndian.PutUint64(msg[len(snapshot):], nonce)
+		if ms, _ := modelScore(modelZeros(msg), len(msg)); !(ms >= target) {
+			o.Fail("score", "call %d on one Worker with the message kept in one buffer that is edited in place between calls: Mine(%x, target=%g) returned nonce %d with score %g below the target", step+1, snapshot, target, nonce, ms)
+			return
+		}
+		o.Count("reuse: calls on a long-lived Worker checked")
+	}
+	o.Count("reuse executions")
+}
+
 // judgeShared: several goroutines mine concurrently on ONE *Worker (it only holds the worker count,
 // so sharing it is ordinary use) with different data and targets; every returned nonce must be sound.
 func judgeShared(seed uint64, o *fw.Obs) {
@@ -369,6 +423,9 @@ func gen(g *fw.Gen) {
 	}
 	for n := g.ShareOf(64, 3000); n > 0; n-- {
 		g.Emit("shared", fw.Pack(fw.U64(g.Rng.Uint64())))
+	}
+	for n := g.ShareOf(200, 10000); n > 0; n-- {
+		g.Emit("reuse", fw.Pack(fw.U64(g.Rng.Uint64())))
 	}
 	for n := g.ShareOf(40000, 2000000); n > 0; n-- {
 		if g.Rng.Intn(8) == 0 {
